@@ -57,7 +57,10 @@ RULE_ADDED = (
               'gain after the server started; late answers of 29 / 30 / 35 / 61 s. '
               ' '
               'Round 12: rounds ended by a stop-worthy reconnection (device in an unknown mode '
-              'after a link failure), version requests spread among the device requests. ')
+              'after a link failure), version requests spread among the device requests. '
+              ' '
+              'Round 13: rounds in which the client of a long request hangs up while it is bein'
+              'g served and others are queueing. ')
 RULE = RULE + " " + RULE_ADDED.strip()
 ASSUMPTIONS = [
     "schedules are those the OS produces under injected device delays; not enumerated",
@@ -66,6 +69,7 @@ ASSUMPTIONS = [
 FLOORS = {"quick": {"evaluations": 120, "pending_overlap_pairs": 150, "apdus_attributed": 1200,
                     "replies_matched": 120, "distinct": 4,
                     "slow_request_rounds": 1, "link_fault_rounds": 3,
+                    "rounds_with_a_client_hanging_up_on_its_long_request": 2,
                     "device_error_replies_in_fault_rounds": 3,
                     "state_replies_compared_with_device_state": 30,
                     "advances_refused_by_device": 10, "late_answer_rounds_over_tcp": 2, "slow_sender_rounds": 3,
@@ -73,6 +77,7 @@ FLOORS = {"quick": {"evaluations": 120, "pending_overlap_pairs": 150, "apdus_att
           "thorough": {"evaluations": 15000, "pending_overlap_pairs": 100000,
                        "apdus_attributed": 200000, "replies_matched": 15000, "distinct": 300,
                        "slow_request_rounds": 5, "link_fault_rounds": 60,
+                       "rounds_with_a_client_hanging_up_on_its_long_request": 40,
                        "device_error_replies_in_fault_rounds": 100,
                        "state_replies_compared_with_device_state": 3000,
                        "advances_refused_by_device": 1000, "late_answer_rounds_over_tcp": 40, "slow_sender_rounds": 40}}
@@ -82,6 +87,7 @@ def shards(tier, seed):
     if tier == "quick":
         return [{"seed": seed * 100 + i, "rounds": 2, "max_clients": 8, "per_client": 3,
                  "slow": [6.5] if i == 0 else [],
+                 "impatient": [3.5] if i in (1, 2) else [],
                  "fault_rounds": 1 if 1 <= i <= 3 else 0,
                  "late": [12.5, 35.0] if i in (4, 5) else [],
                  "slowsend_rounds": 1 if i in (5, 6, 7) else 0,
@@ -90,7 +96,8 @@ def shards(tier, seed):
                  "uihb_tail": [12.5] if i == 2 else []} for i in range(8)]
     slow = {0: [6.5], 1: [12.0], 2: [32.0], 3: [62.0], 4: [125.0]}
     return [{"seed": seed * 100 + i, "rounds": 60, "max_clients": 16, "per_client": 4,
-             "slow": slow.get(i, []), "fault_rounds": 6 if i >= 5 else 0,
+             "slow": slow.get(i, []), "impatient": [3.5, 6.5, 12.0],
+             "fault_rounds": 6 if i >= 5 else 0,
              "late": [10.5, 35.0, 12.5, 61.0, 30.0, 29.0] if i >= 5 else [],
              "slowsend_rounds": 3, "fatal_rounds": 8,
              "quiet": [11.0, 31.0, 61.0, 301.0, 3601.0, 86401.0],
@@ -251,7 +258,7 @@ def expected_from_apdus(kind, apdus):
 
 
 def run_round(acc, spec, rnd, rng, slow=None, fault=None, late=None, slowsend=False,
-              uihb_tail=None, fatal=None, quiet=None):
+              uihb_tail=None, fatal=None, quiet=None, impatient=None):
     """fault: {"after": k, "efail": j, "kind": ...} - the link fails at the k-th exchange
     of the round and the next j reconnections find no device; clients keep sending for
     some seconds, so that any repair work done outside a request (a background retry)
@@ -507,6 +514,15 @@ def run_round(acc, spec, rnd, rng, slow=None, fault=None, late=None, slowsend=Fa
                             time.sleep(0.3)
                             line = line[len(line) // 2:]
                     cs.sendall(line)
+                    if impatient and c == 0:
+                        # the client of the long request gives up waiting and hangs up; its
+                        # request is still being served (left open in the history): nobody
+                        # else's may meet it on the device
+                        time.sleep(impatient)
+                        cs.close()
+                        rec.add("open", rid=rid, client=c)
+                        results[rid] = ("timeout", kind, "hung up after %.1fs" % impatient)
+                        continue
                     data = b""
                     while True:
                         ch = cs.recv(65536)
@@ -581,6 +597,35 @@ def run_round(acc, spec, rnd, rng, slow=None, fault=None, late=None, slowsend=Fa
             acc.count("requests_that_tried_the_ipv6_loopback_first")
         elif e["k"] == "ipv6":
             acc.count("requests_served_over_ipv6")
+    # the request whose exchange got the status word that stops the manager: whatever its
+    # client is told, it is not a success (there is no answer of the device to build one from)
+    stopping = None
+    if fatal:
+        for e in rec.ev:
+            if e["k"] != "apdu" or not e["e"].get("apdu"):
+                continue
+            a_, d_ = e["e"]["apdu"], e["e"].get("data")
+            if (not fatal.get("interrupt") and a_[1] == fatal["cmd"]) or \
+                    (fatal.get("interrupt") and a_[1] == 0x43 and d_ and len(d_) >= 2 and
+                     d_[1] == 0x07):
+                # (the exchange that got the stopping status word / the mode query of a
+                # repair that found a device it stops for)
+                stopping = e["rid"]
+                break
+        if stopping in results and results[stopping][0] == "ok":
+            acc.count("stopping_requests_judged")
+            try:
+                rep_ = json.loads(results[stopping][2].decode())
+            except Exception:
+                rep_ = None
+            if isinstance(rep_, dict) and rep_.get("errorcode") in (0, 1):
+                bad("stopping-request-answered-with-a-success-reply", rid=stopping,
+                    reply=json.dumps(rep_)[:200])
+            elif isinstance(rep_, dict) and rep_.get("errorcode") not in (None, -905, -906, -2):
+                # (nor a verdict about arguments or blocks: it got as far as the device, and
+                # the device gave none)
+                bad("stopping-request-answered-with-a-verdict-that-is-not-its-own", rid=stopping,
+                    reply=json.dumps(rep_)[:200])
     # (c)+(d) replies
     for rid, (status, kind, data) in sorted(results.items()):
         acc.evaluations += 1
@@ -685,6 +730,9 @@ def run_shard(spec, acc):
     for k, total in enumerate(spec.get("slow", [])):
         acc.count("slow_request_rounds")
         run_round(acc, spec, 1000 + k, rng, slow=total)
+    for k, total in enumerate(spec.get("impatient", [])):
+        acc.count("rounds_with_a_client_hanging_up_on_its_long_request")
+        run_round(acc, spec, 8000 + k, rng, slow=total, impatient=rng.choice([0.2, 0.5, 1.2]))
     for k in range(spec.get("slowsend_rounds", 0)):
         run_round(acc, dict(spec, max_clients=6, per_client=4), 4000 + k, rng, slowsend=True)
     for k, d in enumerate(spec.get("uihb_tail", [])):
